@@ -35,9 +35,10 @@ def rec_dtype(fields):
 
 
 from real_packed import PackedOps  # noqa: E402
+from real_rand import RandOps  # noqa: E402
 
 
-class Real(PackedOps):
+class Real(PackedOps, RandOps):
     """A pool of real maps driven by protocol lines."""
 
     def __init__(self):
